@@ -30,6 +30,23 @@ theorem fieldLoop_matches_source (f : FieldInfo) (fbod : Bool) (r : Option (Outc
       cases x <;> cases hr : f.required <;> cases fbod <;>
         simp [stepFieldSrc, Generated.fieldLoop, evalT, eval, lookup, loopTbl, runAction, stepField, stepFieldD, hr]
 
+theorem fieldLoopSimple_covered (f : FieldInfo) (fbod p : Bool) (reqBy : List String) :
+    chainCovered Generated.fieldLoopSimple (loopTbl f fbod p reqBy) = true := by rfl
+
+/-- C08 (source tie): the loop of `SimpleObjectMethod.deserialize` (selected only without fall-back and without `dependent_required`) gives the
+errors, the count and the crash of the model's step; the values are not stored (the constructor receives the data) -/
+theorem fieldLoopSimple_matches_source (f : FieldInfo) (r : Option (Outcome Val)) (reqBy : List String) (rest : FAcc) :
+    let s := stepFieldSrc Generated.fieldLoopSimple f false r reqBy rest
+    let m := stepField f false r rest
+    s.errs = m.errs ∧ s.count = m.count ∧ s.crash = m.crash := by
+  cases r with
+  | none =>
+      cases hr : f.required <;>
+        simp [stepFieldSrc, Generated.fieldLoopSimple, evalT, eval, lookup, loopTbl, runAction, stepField, hr]
+  | some x =>
+      cases x <;> cases hr : f.required <;>
+        simp [stepFieldSrc, Generated.fieldLoopSimple, evalT, eval, lookup, loopTbl, runAction, stepField, hr]
+
 theorem requiredBy_ne_of_requiringPresent {f : FieldInfo} {kvs : List (String × Py)} (h : (requiringPresent f kvs).isEmpty = false) :
     f.requiredBy.isEmpty = false := by
   cases hq : f.requiredBy with
